@@ -93,8 +93,11 @@ def handle (st : St) (toks : List String) : Option (St × String) :=
     let disc ← Driver.TlvD.tag? tag
     let ix : Instruction := ⟨← Hex.toBytes prog, ← parseMetas metas, ← Hex.toBytes ixd⟩
     let fm ← parseFetch fetch
-    let s := match addToInstruction pda (fetchOf fm) ix (← Hex.toBytes stored) disc with
-      | .ok ix' => s!"ok {fmtMetas ix'.accounts}" | .err e => errLine e | .panic => "panic"
+    let stored ← Hex.toBytes stored
+    let s := match addToInstruction pda (fetchOf fm) ix stored disc with
+      | .ok ix' => s!"ok {fmtMetas ix'.accounts}"
+      | .err e => s!"err left={fmtMetas (addToInstructionT pda (fetchOf fm) ix stored disc).1} | {e.code}"
+      | .panic => "panic"
     pure (st, s)
   | [kind, tag, stored, prog, ixd, metas, initial, pool] => do
     if kind ≠ "addcpi" ∧ kind ≠ "both" then none
@@ -107,14 +110,34 @@ def handle (st : St) (toks : List String) : Option (St × String) :=
       | .ok (ix', infos) =>
         let keys := if infos.isEmpty then "-" else ",".intercalate (infos.map (fun i => Hex.ofBytes i.key))
         s!"ok {fmtMetas ix'.accounts} ; {keys}"
-      | .err e => errLine e | .panic => "panic"
+      | .err e =>
+        let (m, infos) := (addToCpiT pda ix initial stored disc pool).1
+        let keys := if infos.isEmpty then "-" else ",".intercalate (infos.map (fun i => Hex.ofBytes i.key))
+        s!"err left={fmtMetas m} ; {keys} | {e.code}"
+      | .panic => "panic"
     if kind = "addcpi" then pure (st, cpi)
     else
       -- the fetcher returns the data the infos hold (initial first, then the pool)
       let fm : List (Bytes × Res (Option Bytes)) := (initial ++ pool).map (fun i => (i.key, .ok (some i.data)))
       let off := match addToInstruction pda (fetchOf fm) ix stored disc with
-        | .ok ix' => s!"ok {fmtMetas ix'.accounts}" | .err e => errLine e | .panic => "panic"
-      pure (st, s!"OFF {off} CPI {cpi}")
+        | .ok ix' => s!"ok {fmtMetas ix'.accounts}"
+        | .err e => s!"err left={fmtMetas (addToInstructionT pda (fetchOf fm) ix stored disc).1} | {e.code}"
+        | .panic => "panic"
+      -- the error codes (fidelity notes) go behind both observations
+      let cut (x : String) : String × String := match x.splitOn " | " with
+        | [a, b] => (a, b) | _ => (x, "")
+      let (om, on) := cut off
+      let (cm, cn) := cut cpi
+      pure (st, if on.isEmpty ∧ cn.isEmpty then s!"OFF {om} CPI {cm}" else s!"OFF {om} CPI {cm} | {on},{cn}")
+  | ["checkh", tag, stored, newc, prog, ixd, infos] => do
+    let disc ← Driver.TlvD.tag? tag
+    let (b', up) := Resolution.update (← Hex.toBytes stored) disc (← parseCfgs newc)
+    let r := checkAccountInfos pda (← parseInfos infos) (← Hex.toBytes ixd) (← Hex.toBytes prog) b' disc
+    let cut (x : String) : String × String := match x.splitOn " | " with
+      | [a, b] => (a, b) | _ => (x, "")
+    let (um, un) := cut (unitRes up)
+    let (cm, cn) := cut (unitRes r)
+    pure (st, if un.isEmpty ∧ cn.isEmpty then s!"up={um} check={cm}" else s!"up={um} check={cm} | {un},{cn}")
   | ["check", tag, stored, prog, ixd, infos] => do
     let disc ← Driver.TlvD.tag? tag
     let r := checkAccountInfos pda (← parseInfos infos) (← Hex.toBytes ixd) (← Hex.toBytes prog)
